@@ -99,6 +99,28 @@ def factories(prog, blds):
                                for n in ast.walk(f.node) if n not in ast.walk(g.node))
                 if returned:
                     out[f] = dict(builder=calls_builder[1], nested=g, plain_lookup=good, call=calls_builder[2])
+    # wrappers: every value a function returns is a factory result, directly, through a local, or through a module-level table it
+    # was stored in under the key it is read back with (whether such a table is a sound memo is the hidden-state clause's business)
+    for _ in range(2):
+        for f in prog.funcs:
+            if f in out or f.parent is not None:
+                continue
+            made = None          # (factory, texts that hold a factory result)
+            holders = set()
+            for n in ast.walk(f.node):
+                if isinstance(n, ast.Call) and isinstance(n.func, (ast.Name, ast.Attribute)):
+                    r = prog.resolve(f.mod, n.func)
+                    if r and r[0] == 'func' and r[1] in out:
+                        made = r[1]
+                        holders.add(norm(n))
+            if made is None:
+                continue
+            for n in ast.walk(f.node):
+                if isinstance(n, ast.Assign) and norm(n.value) in holders:
+                    holders |= {norm(t) for t in n.targets}
+            rets = [n for n in ast.walk(f.node) if isinstance(n, ast.Return)]
+            if rets and all(r_.value is not None and norm(r_.value) in holders for r_ in rets):
+                out[f] = dict(out[made])
     return out
 
 
